@@ -100,6 +100,13 @@ func opGroupAndMeta(r *rand.Rand, scenarios int) {
 				if r.Intn(12) == 0 {
 					part.Err = 9
 				}
+				if r.Intn(6) == 0 { // a replica on a broker that is offline: the metadata lists only live brokers
+					part.Replicas = append(part.Replicas, 7+int32(r.Intn(2)))
+				}
+				if r.Intn(10) == 0 { // no leader at the moment / the leader is the offline broker
+					part.Leader = []int32{-1, 7}[r.Intn(2)]
+					part.Err = 5
+				}
 				t.Parts[p] = part
 			}
 			c.Topics[n] = t
@@ -143,11 +150,20 @@ func opGroupAndMeta(r *rand.Rand, scenarios int) {
 					}
 				}
 			}
+			if e := c.GroupErr[group]; e != 0 { // the coordinator fails every OffsetFetch of the group with this code
+				st = append(st, fmt.Sprintf("*/0=E%d", e))
+			}
 			sort.Strings(st)
 			return dash(strings.Join(st, ";"))
 		}
 
 		for i := 0; i < 12; i++ {
+			c.Lock()
+			delete(c.GroupErr, group)
+			if r.Intn(8) == 0 { // e.g. COORDINATOR_LOAD_IN_PROGRESS / GROUP_AUTHORIZATION_FAILED
+				c.GroupErr[group] = int16([]int{14, 30}[r.Intn(2)])
+			}
+			c.Unlock()
 			// ---- OffsetFetch
 			req := &kafka.OffsetFetchRequest{GroupID: group, Topics: map[string][]int{}}
 			var enc []string
@@ -262,7 +278,16 @@ func opGroupAndMeta(r *rand.Rand, scenarios int) {
 				offs, err := cl.ConsumerOffsets(context.Background(), kafka.TopicAndGroup{Topic: tn, GroupId: group})
 				op := fmt.Sprintf("coffsets %s %s %d", st, tn, np)
 				if err != nil {
-					emit(op, "err")
+					var ps []string
+					var ids []int
+					for p := range offs {
+						ids = append(ids, p)
+					}
+					sort.Ints(ids)
+					for _, p := range ids {
+						ps = append(ps, fmt.Sprintf("%d=%d", p, offs[p]))
+					}
+					emit(op, fmt.Sprintf("err %d %s", errCode(err), dash(strings.Join(ps, ","))))
 				} else {
 					var ps []string
 					var ids []int
@@ -351,7 +376,7 @@ func opGroupAndMeta(r *rand.Rand, scenarios int) {
 			} else {
 				var ps []string
 				for _, p := range parts {
-					ps = append(ps, fmt.Sprintf("%s/%d=%d=%s=%s", p.Topic, p.ID, p.Leader.ID, brokerIDs(p.Replicas), brokerIDs(p.Isr)))
+					ps = append(ps, fmt.Sprintf("%s/%d=%d=%s=%s=%d", p.Topic, p.ID, p.Leader.ID, brokerIDs(p.Replicas), brokerIDs(p.Isr), errCode(p.Error)))
 				}
 				sort.Strings(ps)
 				emit(op, dash(strings.Join(ps, ",")))
